@@ -14,6 +14,7 @@ import (
 
 	"github.com/pkg/errors"
 	"github.com/tokenized/bitcoin_reader/headers"
+	"github.com/tokenized/pkg/bitcoin"
 	"github.com/tokenized/pkg/wire"
 )
 
@@ -34,8 +35,10 @@ type boundaryFixture struct {
 	tip  *wire.BlockHeader
 }
 
-func buildBoundaryFixture() (*boundaryFixture, error) {
-	repo := headers.NewRepository(headers.DefaultConfig(), vstore.New())
+func buildBoundaryFixture() (*boundaryFixture, error) { return buildBoundaryFixtureOn(bitcoin.MainNet) }
+
+func buildBoundaryFixtureOn(net bitcoin.Network) (*boundaryFixture, error) {
+	repo := headers.NewRepository(&headers.Config{Network: net, MaxBranchDepth: 144}, vstore.New())
 	repo.DisableDifficulty()
 	repo.DisableSplitProtection()
 	limit := uint32(0x1d00ffff)
@@ -97,7 +100,16 @@ func mineBoundary() {
 
 func boundaryPart(thorough bool) *result {
 	res := newResult()
-	f, err := buildBoundaryFixture()
+	// on the mainnet configuration, and on a repository configured for another network (no chain
+	// split table): the enforcement of the required target does not depend on the split configuration
+	for _, net := range []bitcoin.Network{bitcoin.MainNet, bitcoin.TestNet} {
+		boundaryOn(res, net)
+	}
+	return res
+}
+
+func boundaryOn(res *result, net bitcoin.Network) {
+	f, err := buildBoundaryFixtureOn(net)
 	if err != nil {
 		fmt.Println("HARNESS ERROR: boundary fixture:", err)
 		os.Exit(2)
@@ -117,15 +129,15 @@ func boundaryPart(thorough bool) *result {
 	if perr != nil {
 		cause = errors.Cause(perr).Error()
 	}
-	res.outcomes["limit-bits-at-first-enforced-height/"+cause]++
-	res.samples = append(res.samples, map[string]any{"part": "activation-boundary", "height": boundaryHeight, "offered_bits": "0x1d00ffff", "answer": cause})
+	tag := fmt.Sprintf("network-%v", net)
+	res.outcomes["limit-bits-at-first-enforced-height/"+tag+"/"+cause]++
+	res.samples = append(res.samples, map[string]any{"part": "activation-boundary", "configured_network": fmt.Sprint(net), "height": boundaryHeight, "offered_bits": "0x1d00ffff", "answer": cause})
 	switch {
 	case p != "":
-		res.vs = append(res.vs, mc.Violation{Prop: "C02", Clause: "boundary-panic", Fingerprint: "boundary-panic", Detail: p, History: map[string]any{"height": boundaryHeight}})
+		res.vs = append(res.vs, mc.Violation{Prop: "C02", Clause: "boundary-panic", Fingerprint: "boundary-panic|" + tag, Detail: p, History: map[string]any{"height": boundaryHeight}})
 	case perr == nil || errors.Cause(perr) != headers.ErrInvalidTarget:
-		res.vs = append(res.vs, mc.Violation{Prop: "C02", Clause: "target-not-enforced-at-first-height", Fingerprint: "target-not-enforced-at-first-height|" + cause,
-			Detail:  fmt.Sprintf("a header at height %d (the first height with an enforced target) claiming the proof-of-work limit, with real proof of work for that claim, was answered %q although the chain requires half the limit", boundaryHeight, cause),
-			History: map[string]any{"height": boundaryHeight, "nonce": boundaryNonce, "timestamp": boundaryTimestamp}})
+		res.vs = append(res.vs, mc.Violation{Prop: "C02", Clause: "target-not-enforced-at-first-height", Fingerprint: "target-not-enforced-at-first-height|" + tag + "|" + cause,
+			Detail:  fmt.Sprintf("a header at height %d (the first height with an enforced target) claiming the proof-of-work limit, with real proof of work for that claim, was answered %q although the chain requires half the limit (repository configured for network %v)", boundaryHeight, cause, net),
+			History: map[string]any{"height": boundaryHeight, "nonce": boundaryNonce, "timestamp": boundaryTimestamp, "network": fmt.Sprint(net)}})
 	}
-	return res
 }
